@@ -433,3 +433,54 @@ def gcs_replay(inputs, clause):
 
 contig_size.replay = gcs_replay
 UNITS.append(contig_size)
+
+
+# ------------------------------------------------------------------------------ obtain_counts: merging the per-job matrices
+# "identical for every number of bins per job and every worker schedule": every cell of every job's matrix ends up in the
+# merged matrix with its count, whatever order the workers finish in (bounded: two jobs; disjoint cells by lemma.disjoint_bins)
+def oc_setup(eng):
+    eng.ghost.clear()
+    v = [named(INT, 'count_%d' % i) for i in range(4)]
+    for x in v:
+        eng.assume(x.z >= 1)
+    s1, s2 = named(STR, 'sample_1'), named(STR, 'sample_2')
+    eng.assume(s1.z != s2.z)
+    # job A owns bins (chr1,0,100) and (chr1,100,200); job B owns (chr1,200,300) - and a second sample in its own bin only
+    res = {'A': {('chr1', 0, 100): {s1: v[0]}, ('chr1', 100, 200): {s1: v[1], s2: v[2]}},
+           'B': {('chr1', 200, 300): {s2: v[3]}}}
+    eng.spec_env.update({'V': v, 'S1': s1, 'S2': s2})
+    eng.spec_env['COUNT_FN'] = Builtin('count_function', lambda e, a, k, n: {b: dict(d) for b, d in res[a[0]].items()})
+
+    def pool(e, a, k, n):
+        o = stubs.Obj('Pool', {})
+        o.vc_immutable = True
+        return o
+
+    def imap(e, o, fn, commands, *a, **k):
+        cmds = list(commands)
+        if e.branch(fresh(BOOL, 'second_job_finishes_first').z):      # any completion order
+            cmds = cmds[::-1]
+        return [e.call(fn, [c], {}) for c in cmds]
+    stubs.STUBS['Pool'] = {'methods': {'__enter__': lambda e, o: o, '__exit__': lambda e, o, *a: None, 'imap_unordered': imap},
+                           'props': {}, 'setters': {}}
+    externals.EXTRA['multiprocessing.Pool'] = pool
+    externals.EXTRA['datetime.datetime.now'] = lambda e, a, k, n: 'now'
+
+
+obtain_counts = Contract(
+    PROP, F + '::obtain_counts', name='obtain_counts[two jobs, any completion order]',
+    params={'commands': ('const', ['A', 'B']), 'reference': 'none', 'live_update': ('const', False), 'show_n_cells': ('const', 4),
+            'update_interval': ('const', 3), 'threads': ('const', 2), 'count_function': lambda e, n: e.spec_env['COUNT_FN'],
+            'show_progress': ('const', False)},
+    setup=oc_setup,
+    ensures={
+        'every_cell_of_every_job_is_in_the_merged_matrix':
+            'result[("chr1", 0, 100)][S1] == V[0] and result[("chr1", 100, 200)][S1] == V[1] and '
+            'result[("chr1", 100, 200)][S2] == V[2] and result[("chr1", 200, 300)][S2] == V[3]',
+        'nothing_else': 'len(result) == 3 and sum([len(result[b]) for b in result]) == 4',
+    },
+    raises={},
+    bounded='two jobs with 2 + 1 bins and two samples (symbolic counts and sample names), both completion orders',
+    assumptions=['multiprocessing.Pool.imap_unordered yields the results of count_function in an arbitrary order (A6)'],
+)
+UNITS.append(obtain_counts)
